@@ -150,6 +150,9 @@ where
 {
     let (c_l, l_c) = local_client.split();
     let (c_s, s_c) = client_server.split();
+    let (up, down) = (relay::Activity::default(), relay::Activity::default());
+    let l_c = l_c.inspect(|_| up.touch());
+    let s_c = s_c.inspect(|_| down.touch());
 
     let l_c_s = async {
         match l_c.forward(c_s).await {
@@ -166,24 +169,24 @@ where
     };
 
     tokio::pin!(l_c_s, s_c_l);
-    let (first, other) = tokio::select! {
-        res = &mut l_c_s => (res, futures::future::Either::Left(s_c_l)),
-        res = &mut s_c_l => (res, futures::future::Either::Right(l_c_s)),
+    let (first, other, other_activity) = tokio::select! {
+        res = &mut l_c_s => (res, futures::future::Either::Left(s_c_l), &down),
+        res = &mut s_c_l => (res, futures::future::Either::Right(l_c_s), &up),
     };
     match first {
         Ok(_) => unreachable!("should never reach here"),
         Err(res @ relay::Result::Close(..)) => {
-            // One side has closed and its data and end-of-stream have been passed on. Give the peer a moment to
-            // end its side too: dropping the sockets while it is still sending resets the connection, and a reset
-            // discards what was passed on but not yet delivered.
-            let _ = time::timeout(CLOSE_GRACE, other).await;
+            // One side has closed and its data and end-of-stream have been passed on. Let the peer end its side too:
+            // dropping the sockets while it is still sending resets the connection, and a reset discards what was
+            // passed on but not yet delivered. It may take as long as it keeps sending.
+            relay::wind_down(other, other_activity, CLOSE_GRACE).await;
             res
         }
         Err(e) => e,
     }
 }
 
-/// How long the other direction may take to end after one side has closed, before the flow is torn down anyway.
+/// How long the other direction may stay silent after one side has closed, before the flow is torn down anyway.
 const CLOSE_GRACE: Duration = Duration::from_secs(2);
 
 pub async fn transfer_udp<Context, NewContext, Key, NewKey, Out, NewOut, ToOutSend, ToInRecv, OutRecv, OutSend>(
